@@ -235,7 +235,30 @@ EXTRA={
    '//@ loop 1 invariant [C02] one.each: len(vals) == ri1',
    '//@ assertbefore "vals = append(vals, val)" [C02] answer: (val != nil) == (objExists && flagHasOne(sk.flags, FLAG_KEY_TYPE_STRING))',
    '//@ ensures internal [C02] one.each: len(vals) == len(keyName)'],
- 'lmpop': ['//@ loop "for _, keyName := range keyNames" invariant [C06] nomut: !mutated', '//@ loop 2 invariant [C06] noempty.left: list.count == 0 ==> !dsc.ds.data.vdom[keyName]', '//@ loop 3 invariant [C06] noempty.right: list.count == 0 ==> !dsc.ds.data.vdom[keyName]', '//@ assertbefore "result = []any{keyName, elements}" [C06] noempty: list.count == 0 ==> !dsc.ds.data.vdom[keyName]'],
+ 'getHashTableRandField': [
+   '//@ requires [C13,C04] count.negatable: count == nil || *count > -9223372036854775808',
+   '//@ use redisDict.pickRandomItems.members redisDict.pickUniqueRandomItems.members',
+   # HRANDFIELD with a count: exactly |count| picks for a negative count, min(count, HLEN) for a positive one, one without a count
+   '//@ assertafter "items = m.pickRandomItems(arraySize, 85)" [C04] negative.exact: len(items) == ite(count == nil, 1, -(*count))',
+   '//@ assertafter "items = m.pickUniqueRandomItems(arraySize, 85)" [C04] positive.bounded: len(items) == ite(*count > m.count, m.count, *count)'],
+ 'getSetRandMember': [
+   '//@ requires [C13,C05] count.negatable: count == nil || *count > -9223372036854775808',
+   # SRANDMEMBER with a count: a negative count yields exactly |count| picks (repeats allowed), a positive one at most count and at most the cardinality
+   '//@ use redisDict.pickRandomItems.members redisDict.pickUniqueRandomItems.members',
+   '//@ loop "for _, item := range items" invariant [C05] copied: len(a) == ri',
+   '//@ loop "for _, item := range items" invariant picked: allsel(k, 0, len(items), items[k] != nil)',
+   '//@ assertbefore "output = nativeValueToResp(a)" [C05] negative.exact: *count < 0 ==> len(a) == -(*count)',
+   '//@ assertbefore "output = nativeValueToResp(a)" [C05] positive.bounded: *count >= 0 ==> len(a) <= *count && len(a) <= m.count',
+   '//@ assertbefore "output.data = respBulkString(a[0])" [C05] single: len(a) == 1'],
+ 'lmpop': ['// LMPOP serves exactly one list - the first non-empty one - and takes at most COUNT elements from it',
+   '//@ ghostentry gFound = 0',
+   '//@ ghostbefore "result = []any{keyName, elements}" : gFound = gFound + 1',
+   '//@ loop "for _, keyName := range keyNames" invariant [C03] none.served.yet: gFound == 0 && len(elements) == 0 && count == old(count)',
+   '//@ loop 2 invariant [C03] budget.left: len(elements) + count == old(count) && gFound == 0 && (old(count) <= 0 ==> len(elements) == 0) && (old(count) > 0 ==> count >= 0)',
+   '//@ loop 3 invariant [C03] budget.right: len(elements) + count == old(count) && gFound == 0 && (old(count) <= 0 ==> len(elements) == 0) && (old(count) > 0 ==> count >= 0)',
+   '//@ assertbefore "result = []any{keyName, elements}" [C03] served.first: gFound == 1',
+   '//@ assertbefore "result = []any{keyName, elements}" [C03] served.budget: len(elements) <= ite(old(count) > 0, old(count), 0)',
+   '//@ loop "for _, keyName := range keyNames" invariant [C06] nomut: !mutated', '//@ loop 2 invariant [C06] noempty.left: list.count == 0 ==> !dsc.ds.data.vdom[keyName]', '//@ loop 3 invariant [C06] noempty.right: list.count == 0 ==> !dsc.ds.data.vdom[keyName]', '//@ assertbefore "result = []any{keyName, elements}" [C06] noempty: list.count == 0 ==> !dsc.ds.data.vdom[keyName]'],
  'addInt': ['//@ ghostafter "value, err = strconv.ParseInt" : gParsed = value',
             '//@ ghostafter "canonical := strconv.FormatInt(value, 10)" : gParsedOK = (err == nil && canonical)',
             '//@ requires !gParsedOK',
